@@ -301,12 +301,51 @@ fn length_sweep(rec: &mut Rec, _ctx: &Ctx, idx: u64, rng: &mut rand_chacha::ChaC
   }
 }
 
+/// one client's report replayed tens of thousands of times BEFORE the other
+/// clients' reports arrive
+fn replay_flood(rec: &mut Rec, _ctx: &Ctx, idx: u64, rng: &mut rand_chacha::ChaCha20Rng) {
+  let t = 3u32;
+  let sc = Scenario { measurement: rand_bytes_in(rng, 1..30), epoch: rand_bytes_in(rng, 0..4), t, src: RandSrc::Local };
+  let auxes = vec![Some(rand_bytes(rng, 8)), None, Some(rand_bytes(rng, 300))];
+  let reps = match sc.make_reports(rng, &auxes) {
+    Ok(r) => r,
+    Err(e) => {
+      rec.violation("generate-failed", e, json!({}));
+      return;
+    }
+  };
+  let decoded: Vec<Message> = reps.iter().filter_map(|r| Message::from_bytes(&r.bytes)).collect();
+  if decoded.len() != 3 {
+    return;
+  }
+  let flood = [65_535usize, 65_536, 70_000, 131_072][(idx % 4) as usize];
+  rec.evals += 1;
+  rec.ev("replay_flood_scenarios");
+  rec.case(&("flood", flood));
+  let mut shares: Vec<Share> = Vec::with_capacity(flood + 2);
+  for _ in 0..flood {
+    shares.push(decoded[0].share.clone());
+  }
+  shares.push(decoded[1].share.clone());
+  shares.push(decoded[2].share.clone());
+  rec.ev("recover");
+  match share_recover(&shares) {
+    Ok(c) => reveal_all(rec, &sc, &reps, &decoded, &c.get_message(), idx, &[0, 1, 2]),
+    Err(e) => rec.violation(
+      "recover-failed:replay-flood",
+      format!("{} replays of one report followed by {} further distinct reports (t = {}): {}", flood, 2, t, e),
+      json!({"flood": flood, "threshold": t, "reports_hex": reps.iter().map(|r| hex(&r.bytes)).collect::<Vec<_>>() }),
+    ),
+  }
+}
+
 pub fn run(ctx: &Ctx) -> Rec {
   let n = ctx.n(8000, 120_000);
   let mut rec = par_run(ctx, "scenario", n, |rec, i, rng| scenario(rec, ctx, i, rng));
   let max_len: u64 = if ctx.thorough() { 1200 } else { 420 };
   rec.merge(par_run(ctx, "length-sweep", 2 * (max_len + 1), |rec, i, rng| length_sweep(rec, ctx, i, rng)));
   rec.note("length_sweep_max", json!(max_len));
+  rec.merge(par_run(ctx, "replay-flood", ctx.n(4, 16), |rec, i, rng| replay_flood(rec, ctx, i, rng)));
   let _ = HashMap::<u8, u8>::new();
   rec.note("scenarios", json!(n));
   rec
